@@ -186,4 +186,108 @@ theorem host_groupProbed (r : Rule) (h : Str) (q : Request) (hr : HostRule r h)
       · simp only [List.head?_cons, Option.some.injEq] at hB; subst hB; subst hc; exact dot_not_tok
       · rw [hB] at hc0; injection hc0 with hc0; subst hc0; rw [dot_not_tok] at hc0t; cases hc0t
 
+/-! ### `||host/path` rules -/
+
+structure HostPathRule (r : Rule) (h f : Str) : Prop where
+  filter : r.filter = .simple f
+  slash : f.head? = some '/'
+  host : r.hostname = some h
+  hostNe : h ≠ []
+  anchor : r.isHostnameAnchor = true
+  left : r.isLeftAnchor = true
+  notRight : r.isRightAnchor = false
+  notRegex : r.isRegex = false
+  notComplete : r.isCompleteRegex = false
+  notHostRegex : r.isHostnameRegex = false
+  noDomains : r.domains = none
+  notRp : r.isRemoveparam = false
+  schemes : r.forHttp = r.forHttps
+  noCase : r.matchCase = false
+
+theorem hostpath_getTokens (r : Rule) (h f : Str) (hr : HostPathRule r h f) :
+    r.getTokens = [tokenizeFilter f false true ++ tokenize h] := by
+  unfold Rule.getTokens
+  simp only [hr.filter, hr.noDomains, hr.host, hr.notHostRegex, hr.notRp, hr.notComplete, hr.left, hr.notRight,
+    Bool.not_false, Bool.not_true, if_true, Bool.and_false, Bool.false_eq_true, if_false, List.nil_append,
+    Option.isSome_none]
+  have hs : (r.forHttp && !r.forHttps) = false ∧ (r.forHttps && !r.forHttp) = false := by
+    rw [hr.schemes]; cases r.forHttps <;> simp
+  simp [hs.1, hs.2]
+
+theorem slash_not_tok : isTok '/' = false := by decide
+
+/-- **Token soundness for `||host/path` rules.** -/
+theorem hostpath_groupProbed (r : Rule) (h f : Str) (q : Request) (hr : HostPathRule r h f)
+    (hq : q.tokens = tokenizeUrl q.urlLower ++ [0]) (hin : HostIn q)
+    (hnh : NotTruncated false true h) (hnf : NotTruncated false true f)
+    (hnu : NotTruncated false false q.urlLower) : GroupProbed r q := by
+  intro hm
+  have hpat : checkPattern r q = true := by
+    unfold Rule.matches at hm
+    simp only [Bool.and_eq_true] at hm
+    exact hm.2
+  have hurl : reqUrl r q = q.urlLower := by unfold reqUrl; simp [hr.noCase]
+  unfold checkPattern at hpat
+  simp only [hr.anchor, if_true, hr.host, hr.notHostRegex, hr.notRegex, hr.left, hr.notRight, Bool.false_and,
+    Bool.and_true, Bool.false_eq_true, if_false, hr.filter, FilterPart.items, List.isEmpty_cons, Bool.false_or,
+    List.any_cons, List.any_nil, Bool.or_false, hurl] at hpat
+  split at hpat
+  · cases hpat
+  · rename_i hn
+    have hanch : isAnchoredByHostname h q.hostname false = true := by simpa using hn
+    -- the path part sits right after the first occurrence of the host text in the URL
+    have hpre : f.isPrefixOf (urlAfterHostname q.urlLower h) = true := hpat
+    obtain ⟨rest, hrest⟩ := List.isPrefixOf_iff_prefix.1 hpre
+    have hfemb : ∃ X, q.urlLower = X ++ f ++ rest := by
+      unfold urlAfterHostname at hrest
+      simp only at hrest
+      exact ⟨q.urlLower.take ((findSub h q.urlLower).getD (q.urlLower.length - h.length) + h.length), by
+        rw [List.append_assoc, hrest, List.take_append_drop]⟩
+    obtain ⟨X, hX⟩ := hfemb
+    obtain ⟨A, B, hAB, hAb, hBb⟩ := anchored_decomp h q.hostname hr.hostNe hanch
+    obtain ⟨P, S, hPS, hPl, hSh⟩ := hin
+    rw [hostpath_getTokens r h f hr]
+    refine ⟨_, List.mem_singleton.2 rfl, ?_⟩
+    intro t ht
+    have hfin : ∀ t, TokenOf false false false q.urlLower t → t ∈ q.probe := by
+      intro t he
+      have := tokenizeUrl_complete q.urlLower hnu t he
+      unfold Request.probe
+      rw [hq]
+      simp only [List.mem_append]
+      right; left; exact this
+    rcases List.mem_append.1 ht with ht | ht
+    · -- a token of the path part
+      unfold tokenizeFilter at ht
+      have hs := tokenizeWith_sound false true true f hnf t ht
+      have he := tokenOf_embed_b false true true X f rest t hs ?_ (by intro hx; cases hx)
+      · rw [← hX] at he; exact hfin t he
+      · intro _ ⟨c0, hc0, hc0t⟩
+        rw [hr.slash] at hc0; injection hc0 with hc0; subst hc0
+        rw [slash_not_tok] at hc0t; cases hc0t
+    · -- a token of the host name
+      unfold tokenize at ht
+      have hs := tokenizeWith_sound false false true h hnh t ht
+      have he := tokenOf_embed_b false false true (P ++ A) h (B ++ S) t hs ?_ ?_
+      · have hu : q.urlLower = P ++ A ++ h ++ (B ++ S) := by rw [hPS, hAB]; simp
+        rw [← hu] at he; exact hfin t he
+      · intro _ ⟨c0, hc0, hc0t⟩ c hc
+        cases A with
+        | nil => simp only [List.append_nil] at hc; exact hPl c hc
+        | cons a as =>
+          rw [getLast?_append_ne _ _ (by simp)] at hc
+          rcases hAb with hA | hA | hA
+          · cases hA
+          · rw [hA] at hc; injection hc with hc; subst hc; exact dot_not_tok
+          · rw [hA] at hc0; injection hc0 with hc0; subst hc0; rw [dot_not_tok] at hc0t; cases hc0t
+      · intro _ ⟨c0, hc0, hc0t⟩ c hc
+        cases B with
+        | nil => simp only [List.nil_append] at hc; exact hSh c hc
+        | cons b bs =>
+          simp only [List.cons_append, List.head?_cons, Option.some.injEq] at hc
+          rcases hBb with hB | hB | hB
+          · cases hB
+          · simp only [List.head?_cons, Option.some.injEq] at hB; subst hB; subst hc; exact dot_not_tok
+          · rw [hB] at hc0; injection hc0 with hc0; subst hc0; rw [dot_not_tok] at hc0t; cases hc0t
+
 end Adb.Net
